@@ -80,6 +80,29 @@ var c17tree = []string{
 	"w/w/root/in.txt",
 	"root/in.txt",
 	"sub/in.txt",
+	// names that extend the name of an existing file or directory inside the root (a locator
+	// that tries "<path><suffix>" after a failed read would open them)
+	"w/root/in.txt.ecal",
+	"w/root/in.txt~",
+	"w/root/roo.ecal",
+	"w/root/root.ecal",
+	"w/root/sub/sub.ecal",
+	"w/root/sub/root.ecal",
+	"w/rootx.ecal",
+	"w/sub.ecal",
+}
+
+// siblings of every directory that serves as a root: "<last element of the root><suffix>" next
+// to it.  They lie outside that root (and, by their real location, inside the enclosing ones).
+var c17rootDirs = []string{"w/root", "w/root/sub", "w", "../b", "../../a", "w/nosuch"}
+var c17suffixes = []string{".ecal", ".txt", ".", "~", ".ecal.ecal"}
+
+func init() {
+	for _, d := range c17rootDirs {
+		for _, suf := range c17suffixes {
+			c17tree = append(c17tree, d+suf)
+		}
+	}
 }
 
 func c17content(id int) string { return fmt.Sprintf("id := %d\n", id) }
@@ -96,6 +119,9 @@ func (s *c17state) setup() error {
 	t = filepath.Join(t, "a", "b")
 	s.T = t
 	s.byText = map[string]int{}
+	if len(c17tree) > 62 {
+		return fmt.Errorf("c17: more sentinel files than the transport format can name")
+	}
 	for i, rel := range c17tree {
 		p := filepath.Join(t, rel)
 		if err := os.MkdirAll(filepath.Dir(p), 0o755); err != nil {
@@ -364,12 +390,17 @@ func c17words(alphabet []string, maxLen int, f func(string)) {
 }
 
 func runC17(c *Ctx) error {
-	c.Rule = "strings = elements joined with '/'. Library: filepath.Clean on every string of <=5 (thorough 6) elements over {a,.,..,''} and <=3 (6) over {a,b,.,..,''}; Join on every pair of strings of <=2 (3) elements over {a,b,.,..,''}; Rel on every pair of strings of <=3 (4 x 3, both orders) elements over {a,.,..,''}; seeded random longer ones with names like '..a', 'a.', '...', ' '. Resolve on a sandbox tree ($T = temp dir, $T/w = working directory, 22 sentinel files inside and outside $T/w/root, e.g. w/rootx/in.txt, w/root/..x/in.txt, out.txt): every import path of <=4 (6) elements over {in.txt,sub,root,.,..,''}, with and without a leading '/', under six main root spellings (root, $T/w/root/, ../w/root, ., root/sub, root/ ; deepest level as Coq cases under the first 3 (2) roots and with the Go-side oracle only under the others), <=2 (3) elements over a 13-element alphabet (out.txt, rootx, roo, w, '..x', '...', 'a b', ...) under 15 root spellings (also '', '..', absolute with '//' and '/./', './root', 'root/sub/..', 'rootx/../root', not existing, '../..'), <=3 (4) under 'root', absolute import paths $T/.., $T/w/.., $T/w/root/..; roots '/', '/..', '//' with paths into the sandbox; seeded random walks of 5-12 elements; `import` statements evaluated by the interpreter with the same locator (<=3 elements under 2 roots + random). Observable: id of the sentinel whose content came back, or error. non-trivial = the path has a '..' or starts with '/'; distinct by (kind, root, path)"
+	c.Rule = "strings = elements joined with '/'. Library: filepath.Clean on every string of <=5 (thorough 6) elements over {a,.,..,''} and <=3 (6) over {a,b,.,..,''}; Join on every pair of strings of <=2 (3) elements over {a,b,.,..,''}; Rel on every pair of strings of <=3 (4 x 3, both orders) elements over {a,.,..,''}; seeded random longer ones with names like '..a', 'a.', '...', ' '. Resolve on a sandbox tree ($T = temp dir, $T/w = working directory, 60 sentinel files inside and outside $T/w/root, e.g. w/rootx/in.txt, w/root/..x/in.txt, out.txt, and next to every root directory '<root name>'+{.ecal,.txt,.,~,.ecal.ecal}, next to inside files and directories in.txt.ecal, sub.ecal, roo.ecal): every import path of <=4 (6) elements over {in.txt,sub,root,.,..,''}, with and without a leading '/', under six main root spellings (root, $T/w/root/, ../w/root, ., root/sub, root/ ; deepest level as Coq cases under the first 3 (2) roots and with the Go-side oracle only under the others), <=2 (3) elements over a 13-element alphabet (out.txt, rootx, roo, w, '..x', '...', 'a b', ...) under 15 root spellings (also '', '..', absolute with '//' and '/./', './root', 'root/sub/..', 'rootx/../root', not existing, '../..'), <=3 (4) under 'root', absolute import paths $T/.., $T/w/.., $T/w/root/..; roots '/', '/..', '//' with paths into the sandbox; seeded random walks of 5-12 elements; `import` statements evaluated by the interpreter with the same locator (<=3 elements under 2 roots + random). Observable: id of the sentinel whose content came back, or error. non-trivial = the path has a '..' or starts with '/'; distinct by (kind, root, path)"
 	s := &c17state{c: c}
 	if err := s.setup(); err != nil {
 		return err
 	}
 	defer s.teardown()
+	// intern every element the generators use before the first case is written: a preamble
+	// that changes later closes the current cases file
+	for _, w := range []string{s.T, "a/b/c/x/y/bc/ab/a./.a/.b./..a/.../ /./../", "in.txt/out.txt/sub/root/rootx/roo/w/..x/a b/x./nosuch"} {
+		s.codes(w)
+	}
 	s.header()
 
 	if c.Replay != "" {
